@@ -229,11 +229,21 @@ func genDoc(rng *rand.Rand, class string) *csvDoc {
 	// declared types
 	for i := 0; i < ncols; i++ {
 		name := d.names[i]
-		dupOrEmpty := name == "" || d.rename
-		if dupOrEmpty {
-			continue // declared types are keyed by the final name; keep these columns inferred
+		// Declared types are keyed by the final column name. An aliased column is declared under the alias; with
+		// duplicate names only the first occurrence keeps the name (and the declared type), renamed ones are inferred.
+		firstOcc := true
+		for j := 0; j < i; j++ {
+			if d.names[j] == name {
+				firstOcc = false
+			}
 		}
-		if nrows == 0 || rng.Intn(4) == 0 {
+		if !firstOcc {
+			continue
+		}
+		if name == "" && d.alias == "" {
+			continue
+		}
+		if nrows == 0 || rng.Intn(4) == 0 || ((d.rename || name == "") && rng.Intn(2) == 0) {
 			switch colClass[i] {
 			case "int":
 				d.types[i] = []string{"int", "float", "string"}[rng.Intn(3)]
@@ -395,9 +405,13 @@ func (d *csvDoc) config() []csv.ConfigFunc {
 		t := map[string]string{}
 		ev := map[string][]string{}
 		for i, typ := range d.types {
-			t[d.names[i]] = typ
+			key := d.names[i]
+			if key == "" {
+				key = d.alias
+			}
+			t[key] = typ
 			if v, ok := d.enumVals[i]; ok {
-				ev[d.names[i]] = append([]string(nil), v...)
+				ev[key] = append([]string(nil), v...)
 			}
 		}
 		fns = append(fns, csv.Types(t))
